@@ -39,3 +39,22 @@ contract("mixture.Mixture.generate_string", props=["C01"],
                  "implies(extension and is_none(self._absolute_mass), result == '.|' + str(self._relative_mass) + '%|')": "percentage-form",
                  "implies(extension and not is_none(self._absolute_mass), result == '.|' + real_text(val(self._absolute_mass)) + '|')": "absolute-form"},
          modifies=[], allocates=False)
+
+
+# ---- Mixture.__init__: '%' means percentage, otherwise absolute mass; out-of-range values are rejected (C12 / C15 / C02) -----------------------
+# float(text) is an uninterpreted function of the text (parse_float), str.strip(chars) likewise: the clauses say WHICH text is parsed and what is done with the number
+_PCT = "parse_float(raw_text[1:].strip('|%'))"
+_ABS = "parse_float(raw_text[1:].strip('|'))"
+_MI = {
+    "raw_text[0] == '.'": "starts-with-the-dot",
+    f"implies('%' in raw_text, not is_none(self._relative_mass) and val(self._relative_mass) == {_PCT} and is_none(self._absolute_mass))": "percent-sign-means-percentage-as-written",
+    f"implies('%' in raw_text, 0 <= {_PCT} and {_PCT} <= 100)": "percentage-outside-0-100-is-rejected",
+    f"implies(not ('%' in raw_text) and not is_none(self._absolute_mass), val(self._absolute_mass) == {_ABS} and {_ABS} >= 0 and is_none(self._relative_mass))": "otherwise-absolute-mass-as-written-and-not-negative",
+    "is_none(self._system_mass) and self._raw_text == raw_text": "no-system-mass-yet",
+}
+contract("mixture.Mixture.__init__", props=["C12", "C15", "C02"],
+         params=dict(self=Ref("Mixture"), raw_text=STR), returns=None,
+         ensures=list(_MI), labels=_MI,
+         raises_may={"RuntimeError": "True", "ValueError": "True", "IndexError": "True"},
+         clause_props={"percentage-outside-0-100-is-rejected": ["C15", "C12"], "starts-with-the-dot": ["C15"], "cover": ["C12", "C15"]},
+         modifies=["Mixture._raw_text@self", "Mixture._absolute_mass@self", "Mixture._relative_mass@self", "Mixture._system_mass@self"], allocates=False)
